@@ -9,7 +9,7 @@
      alias_nodes d  : every aliased id is positive and `is_node (gr d) id = true`. *)
 From Agdb Require Import Bytes DbValue Graph DbModel Search Queries Revisions
   ImapProofs AliasProofs QStepProofs AliasQueryProofs AliasRollbackProofs
-  DbInvProofs QueryInvProofs SearchLiveProofs HistoryInvProofs HistoryExamples.
+  DbInvProofs QueryInvProofs SearchLiveProofs HistoryInvProofs HistoryExamples EmptyAliasProofs.
 Open Scope Z_scope.
 
 (* ---- the map is a bijection at all times (IndexedMap level: every sequence of insert / remove_key) ---- *)
@@ -282,3 +282,77 @@ Theorem C10_history :
   alias_bij (exec_all rv_fixed db_new qs) /\ alias_nodes (exec_all rv_fixed db_new qs).
 Proof. exact history_aliases_fixed. Qed.
 Print Assumptions C10_history.
+(* ---- empty aliases through the OTHER alias-inserting queries (fix: b8b5b10) ----
+   The property text: "empty aliases ... are rejected without effect".  InsertAliases always checked; InsertNodes
+   (aliases of new nodes, insert-or-update of existing nodes by ids) and InsertValues (insert-or-update through an
+   alias that does not resolve) did not, and created a node named "" (found by a reader of the property text, not by
+   the proofs above: C10_empty_alias_rejected was stated for InsertAliases only, and the generator produced empty
+   aliases for that query only).  Repaired revision: *)
+Theorem C10_empty_alias_insert_nodes_no_effect :
+  forall rv, fix_empty_alias rv = true ->
+  forall d count values (als : list bytes) ids, undo d = [] -> In ([] : bytes) als ->
+  exec rv d (InsertNodes count values als ids) = (d, QErr ENotAllowed).
+Proof. exact exec_insert_nodes_empty_alias. Qed.
+Print Assumptions C10_empty_alias_insert_nodes_no_effect.
+
+Theorem C10_empty_alias_insert_values_no_effect :
+  forall rv, fix_empty_alias rv = true ->
+  forall d kvs e, undo d = [] -> db_id d (QAlias []) = RErr e ->
+  exec rv d (InsertValues (Ids [QAlias []]) (Single kvs)) = (d, QErr ENotAllowed).
+Proof. exact exec_insert_values_empty_alias. Qed.
+Print Assumptions C10_empty_alias_insert_values_no_effect.
+
+(* inside a longer id list / a running transaction: the step itself fails before touching the database *)
+Theorem C10_empty_alias_insert_values_step :
+  forall rv, fix_empty_alias rv = true ->
+  forall d acc kvs e, db_id d (QAlias []) = RErr e -> insert_values_q rv d acc (QAlias []) kvs = StErr d ENotAllowed.
+Proof. exact insert_values_q_empty_alias. Qed.
+Print Assumptions C10_empty_alias_insert_values_step.
+
+(* the pinned code, and the code with every other repair, accepted them *)
+Theorem C10_empty_alias_nodes_pinned_refuted :
+  let d := fst (exec rv_pinned db_new q_nodes_empty) in
+  snd (exec rv_pinned db_new q_nodes_empty) <> QErr ENotAllowed /\ db_id d (QAlias []) = ROk 1.
+Proof. exact empty_alias_nodes_pinned_refuted. Qed.
+Print Assumptions C10_empty_alias_nodes_pinned_refuted.
+
+Theorem C10_empty_alias_values_pinned_refuted :
+  let d := fst (exec rv_pinned db_new q_values_empty) in
+  snd (exec rv_pinned db_new q_values_empty) <> QErr ENotAllowed /\ db_id d (QAlias []) = ROk 1.
+Proof. exact empty_alias_values_pinned_refuted. Qed.
+Print Assumptions C10_empty_alias_values_pinned_refuted.
+
+Theorem C10_empty_alias_before_fix_refuted :
+  db_id (fst (exec rv_no_empty_fix db_new q_nodes_empty)) (QAlias []) = ROk 1 /\
+  db_id (fst (exec rv_no_empty_fix db_new q_values_empty)) (QAlias []) = ROk 1.
+Proof. exact empty_alias_before_fix_refuted. Qed.
+Print Assumptions C10_empty_alias_before_fix_refuted.
+
+Example C10_empty_alias_fixed_example :
+  exec rv_fixed db_new q_nodes_empty = (db_new, QErr ENotAllowed) /\
+  exec rv_fixed db_new q_values_empty = (db_new, QErr ENotAllowed).
+Proof. exact empty_alias_fixed_example. Qed.
+Print Assumptions C10_empty_alias_fixed_example.
+
+(* ---- no alias in the map is ever empty (theories/NoEmptyAliasProofs.v) ----
+   nea d = the empty alias does not resolve.  C10_no_empty_alias_step: every query of every kind executed
+   inside a transaction, whatever its outcome, keeps nea — for every revision with fix_empty_alias on and
+   from ANY state (no invariant needed): InsertAliases, InsertNodes and InsertValues are the only queries
+   that add aliases and all three reject the empty one; removals only remove.
+   C10_history_no_empty_alias: after every history of queries and transactions from the empty database,
+   failing ones included (a rollback restores the alias map of the state before: C13_history_atomic; same
+   two hypotheses item_ok / bounded), the empty alias does not resolve and no element is named "". *)
+From Agdb Require Import HistoryAtomicProofs NoEmptyAliasProofs.
+
+Theorem C10_no_empty_alias_step :
+  forall rv, fix_empty_alias rv = true ->
+  forall d q, imap_value (aliases d) [] = None -> imap_value (aliases (fst (exec_in_txn rv d q))) [] = None.
+Proof. exact exec_in_txn_nea. Qed.
+Print Assumptions C10_no_empty_alias_step.
+
+Theorem C10_history_no_empty_alias :
+  forall its, Forall item_ok its -> bounded rv_fixed db_new its ->
+  let d := run_items rv_fixed db_new its in
+  imap_value (aliases d) [] = None /\ forall id, imap_key (aliases d) id <> Some [].
+Proof. exact history_no_empty_alias_fixed. Qed.
+Print Assumptions C10_history_no_empty_alias.
